@@ -75,6 +75,7 @@ import contextlib
 import copy
 import itertools
 import math
+import pickle
 import random
 
 import numpy
@@ -84,6 +85,7 @@ import common  # noqa: F401  (puts /repo on sys.path)
 import families as F
 import forcing
 from epsie import proposals as P
+from epsie.chain import Chain
 from epsie.proposals import base as pbase
 
 TWO_PI = 2 * math.pi
@@ -356,9 +358,20 @@ def perparam_law(family, p0, x, N, findings, stats, tag):
     if getattr(p0, 'isdiagonal', True) is False:
         full_cov_args(family, p0, x, findings, stats, tag)
         return None
-    p = copy.deepcopy(p0)
+    # settings histories: jump on the very object that went through the history (no copy in
+    # between), unless the family keeps query caches (its pdf is read from copies anyway)
+    inplace = bool(tag.get('inplace')) and family not in DISCRETE
+    p = p0 if inplace else copy.deepcopy(p0)
     plan = ParamPlan(n)
     p._verif_gen = Gen(plan)
+    try:
+        return _perparam_law(family, p0, p, plan, x, N, findings, stats, tag, kind, vector, names, n)
+    finally:
+        if inplace:
+            p.__dict__.pop('_verif_gen', None)
+
+
+def _perparam_law(family, p0, p, plan, x, N, findings, stats, tag, kind, vector, names, n):
     learned = learn_routing(p, plan, x, names, vector)
     if learned is None:
         stats['skipped_tie_or_probe'] = stats.get('skipped_tie_or_probe', 0) + 1
@@ -411,7 +424,9 @@ def perparam_law(family, p0, x, N, findings, stats, tag):
         if kind == 'int':
             c = int_compare(family, p0, x, name, outs, nacc, N, rep, findings, stats, n, tag)
         else:
-            c = cont_compare(family, p0, x, name, outs, nacc, N, rep, findings, stats, n, tag)
+            cells_, per_ = tag.get('nodes', (32, 16))
+            c = cont_compare(family, p0, x, name, outs, nacc, N, rep, findings, stats, n, tag,
+                             cells=cells_, per=per_)
         consts.append(c)
     # The reported joint density is c(x) * prod_i law_i: C_i = c * prod_{j != i} law_j(frozen_j) and
     # pdf(frozen) = c * prod_j law_j(frozen_j), hence c(x) = prod_i C_i / pdf(frozen)^(n-1).
@@ -524,7 +539,10 @@ def cont_compare(family, p0, x, name, outs, nacc, N, rep, findings, stats, n, ta
 # rotation family).  Counting error of each one-sided mass: 3/(n-1).
 
 def _law_mismatch(family, p0, stats, findings, keyp, finding):
-    if getattr(p0, 'symmetric', False):
+    # `_strict` (settings histories): the object is in a state reached through a reset / setter /
+    # set_state / copy; there a reported density that is not the law of the jumps is stale, not
+    # "another shape by design", whatever the family declares
+    if getattr(p0, 'symmetric', False) and not stats.get('_strict'):
         stats.setdefault('_pending', []).append((keyp, finding))
     else:
         findings.append(finding)
@@ -641,16 +659,40 @@ def full_cov_args(family, p0, x, findings, stats, tag):
     calls = p._verif_gen.calls
     stats['full_cov_checks'] = stats.get('full_cov_checks', 0) + 1
     ok = len(calls) == 1 and calls[0][0] == 'mvn'
+    rep_cov = getattr(p0._proposal, 'cov', None)      # (a frozen univariate normal has none)
+    if rep_cov is None:
+        rep_cov = 'that of %r%r' % (getattr(getattr(p0._proposal, 'dist', None), 'name', type(p0._proposal).__name__),
+                                   {k_: numpy.asarray(v_).tolist() for k_, v_ in getattr(p0._proposal, 'kwds', {}).items()})
+        ok = False
+    else:
+        rep_cov = numpy.asarray(rep_cov, dtype=float)
     if ok:
         mean, cov = calls[0][1], calls[0][2]
         want = numpy.array([x[k] for k in p.parameters], dtype=float)
-        rep_cov = numpy.asarray(p0._proposal.cov, dtype=float)
-        ok = numpy.array_equal(mean, want) and numpy.allclose(cov, rep_cov, rtol=1e-12, atol=0)
+        ok = numpy.array_equal(mean, want) and cov.shape == rep_cov.shape and \
+            numpy.allclose(cov, rep_cov, rtol=1e-12, atol=0)
     if not ok:
         findings.append(('%s:full-cov-arguments' % family,
-                         '%s: jump draws with %r but logpdf reports the density of cov=%r' % (
-                             family, calls, numpy.asarray(p0._proposal.cov).tolist()),
+                         '%s: jump draws with %r but logpdf reports the density of cov=%s' % (
+                             family, calls, rep_cov.tolist() if isinstance(rep_cov, numpy.ndarray) else rep_cov),
                          dict(describe(family, p0, x), kind='full-cov-arguments')))
+    elif tag.get('inplace'):
+        # settings histories: the reported values themselves against the normal law with the
+        # arguments the jump really passed (numpy's law of multivariate_normal(mean, cov))
+        from scipy import stats as _st
+        L = numpy.linalg.cholesky(cov)
+        for zz in ((0.3, -0.7, 1.1), (-1.2, 0.4, 0.2), (0.05, 0.9, -0.6)):
+            d = L @ numpy.array(zz[:len(want)])
+            xi = {k: float(want[i] + d[i]) for i, k in enumerate(p.parameters)}
+            rep = float(p0.logpdf(xi, x))
+            law = float(_st.multivariate_normal.logpdf(d, mean=numpy.zeros(len(want)), cov=cov, allow_singular=True))
+            stats['pdf_evaluations'] = stats.get('pdf_evaluations', 0) + 1
+            if not abs(rep - law) <= 1e-9 * max(1.0, abs(law)):
+                findings.append(('%s:full-cov-density' % family,
+                                 '%s: jump draws multivariate_normal(from-point, cov=%r) but logpdf(%r | %r) = %r; that '
+                                 'normal law gives %r' % (family, cov.tolist(), xi, x, rep, law),
+                                 dict(describe(family, p0, x), kind='full-cov-density', to=xi, reported=rep, law=law)))
+                break
 
 
 # --------------------------------------------------------------------------
@@ -1496,6 +1538,625 @@ def birth_history(name, b0, rng, findings, stats):
 
 
 # --------------------------------------------------------------------------
+# settings histories: every path that changes the settings a jump uses
+# --------------------------------------------------------------------------
+# The units above examine a proposal right after construction or right after an adaptation run.
+# A proposal's settings also change through `_reset_adaptation` (Chain.reset_proposals, the PT
+# sampler's reset_after_swap), `set_state`, the public setters (std, cov, boundaries, kappa,
+# successive, eigvals / eigvects, set_jump_interval) and survive copy.deepcopy / pickle.  If the
+# reported density and the jump read *different copies* of a setting (a cached frozen
+# distribution, cached bound arrays, ...) and one of these paths refreshes only one of them, the
+# reported density is stale.  A unit of kind `settings-history` brings a real object into such a
+# state and then
+#   (law)   runs the same push-forward quadrature as everywhere else on that very object: the law
+#           is derived from the object's own jump() under scripted draws, never from an attribute;
+#   (twin)  compares it with a second real object that has the same current settings by
+#           construction but reached them another way (fresh constructor / set_state / the original
+#           of a copy): logpdf and pdf of the same point pairs equal to 1e-12 relative, the same
+#           scripted draws give the same generator calls and the same jump.
+# In these units every mismatch is a finding, also for families that declare symmetric=True
+# (a density that is stale after a reset is not "another shape by design").  Keys:
+# `<family>:stale-density-after-<reset|setter|set-state|copy|jump-interval>`; the two recorded
+# BoundedEigenvector call-site keys are kept as they are.
+
+HIST_GROUP = {
+    'reset': 'reset', 'reset-reset': 'reset', 'reset-adapt-reset': 'reset', 'reset-step': 'reset',
+    'set-state-fresh': 'set-state', 'set-state-adapted': 'set-state',
+    'setter-std': 'setter', 'setter-cov': 'setter', 'setter-boundaries': 'setter', 'setter-kappa': 'setter',
+    'setter-successive': 'setter', 'setter-eigen': 'setter', 'setter-cov-eigen': 'setter',
+    'jump-interval': 'jump-interval', 'pickle': 'copy', 'deepcopy': 'copy',
+}
+KNOWN_SITE_KEYS = ('BoundedEigenvector:isclose-band-not-in-reported-density',
+                   'BoundedEigenvector:nan-density-outside-box')
+
+
+def history_kinds(fam):
+    """The histories that exist for a family (read off the classes: which setters / state keys /
+    adaptation support each one has)."""
+    adaptive = fam in F.ADAPTIVE
+    ks = []
+    if adaptive:
+        ks += ['reset', 'reset-reset', 'reset-adapt-reset', 'reset-step', 'set-state-adapted']
+    ks += ['set-state-fresh']
+    if fam in PERPARAM:
+        ks += ['setter-std', 'setter-cov']
+    if 'bounded' in fam:
+        ks += ['setter-boundaries']
+    if fam in DISCRETE:
+        ks += ['setter-successive']
+    if fam in EIGEN:
+        ks += ['setter-eigen', 'setter-cov-eigen']
+    if fam in SPHERE:
+        ks += ['setter-kappa']
+    ks += ['jump-interval', 'pickle', 'deepcopy']
+    return ks
+
+
+class ScriptPlan:
+    """Draws from lists (twin comparisons: two objects get the same draws)."""
+
+    def __init__(self, zs, us, ind=0):
+        self.zs, self.us, self.ind = zs, us, ind
+        self.i = 0
+        self.j = 0
+
+    def z(self, callno, k, scale):
+        if self.i >= len(self.zs):
+            raise Exhausted()
+        self.i += 1
+        return self.zs[self.i - 1]
+
+    def u(self, callno):
+        return 0.999999            # never shuffle the eigen-directions
+
+    def u2(self):
+        if self.j + 2 > len(self.us):
+            raise Exhausted()
+        self.j += 2
+        return (self.us[self.j - 2], self.us[self.j - 1])
+
+    def perm(self, n):
+        return numpy.arange(n)
+
+    def pick(self, n):
+        return self.ind % n
+
+
+def _hchain(fam, names, doms, seed, pattern='AR', window=24, jump_interval=1, successive=None, start=None):
+    """A real one-proposal chain under a forced accept/reject pattern.  Every constructor argument
+    that `families.make` draws (variances, covariance matrix, kappa, successive flags, AT's diagonal
+    flag) is a function of `seed` alone: the same seed gives the same arguments whatever `doms`."""
+    prop = F.make(fam, names, doms, random.Random(seed), window=window, jump_interval=jump_interval,
+                  successive=successive)
+    ch = Chain(names, forcing.ForcedModel(pattern), [prop], bit_generator=seed % 100003 + 11)
+    ch.start_position = dict(start)
+    return ch, prop
+
+
+def _with_cov(fam, names, doms, var, successive):
+    """Constructor call with a given diagonal covariance (the families whose constructor takes one)."""
+    cls, kind, _, _ = F.FAMILIES[fam]
+    kw = {}
+    if kind in ('int', 'intbox'):
+        kw['successive'] = dict(successive)
+    if kind in ('box', 'intbox'):
+        return cls(names, {p: doms[p] for p in names}, cov=numpy.array(var, dtype=float), **kw)
+    return cls(names, cov=numpy.array(var, dtype=float), **kw)
+
+
+TAKES_COV = ('normal', 'ss_adaptive_normal', 'bounded_normal', 'ss_adaptive_bounded_normal', 'angular',
+             'ss_adaptive_angular', 'discrete', 'ss_adaptive_discrete', 'bounded_discrete',
+             'ss_adaptive_bounded_discrete')
+
+
+def _settings(p):
+    """What the classes keep as settings (for the replay text and to see whether a history moved them;
+    never used as the truth of a comparison)."""
+    out = {}
+    for attr in ('_std', '_cov', '_eigvals', '_eigvects', '_kappa', '_lowerbnd', '_upperbnd'):
+        v = getattr(p, attr, None)
+        if v is not None and not (attr == '_cov' and getattr(p, 'isdiagonal', False)):
+            out[attr.lstrip('_')] = numpy.asarray(v, dtype=float).tolist()
+    if getattr(p, '_successive', None) is not None:
+        out['successive'] = {k: bool(v) for k, v in p.successive.items()}
+    if getattr(p, '_jump_interval', 1) not in (1, None):
+        out['jump_interval'] = int(p.jump_interval)
+    return out
+
+
+def _live_doms(p, kind, names, doms):
+    out = {}
+    for i, nm in enumerate(names):
+        if getattr(p, '_lowerbnd', None) is not None:
+            conv = int if kind == 'intbox' else float
+            out[nm] = (conv(p._lowerbnd[i]), conv(p._upperbnd[i]))
+        else:
+            out[nm] = doms[nm]
+    return out
+
+
+def _new_doms(kind, doms, names, rng):
+    out = {}
+    for nm in names:
+        lo, hi = doms[nm]
+        if kind == 'intbox':
+            lo, hi = int(math.floor(lo)), int(math.ceil(hi))
+            # (integers: the constructor rounds non-integer bounds outward, the inherited setter is
+            # documented for the bounded normal only and stores what it is given)
+            nlo, nhi = lo + rng.randint(-2, 1), hi + rng.randint(-1, 2)
+            if nhi - nlo < 2:
+                nlo, nhi = lo - 1, hi + 1
+            out[nm] = (nlo, nhi)
+        else:
+            w = hi - lo
+            out[nm] = (round(lo - rng.uniform(-0.2, 0.5) * w, 3), round(hi + rng.uniform(-0.2, 0.5) * w, 3))
+    return out
+
+
+def build_history(fam, hist, rng, nparams):
+    """Bring a real proposal of `fam` into the state at the end of history `hist`.
+    Returns dict(R=object under test, T=twin or None, steps=[text], names, kind, doms) or None."""
+    cls, kind, lo, hi = F.FAMILIES[fam]
+    n = max(lo, min(hi, nparams))
+    names = ['x%d' % i for i in range(n)]
+    doms = {p: F.domain_for(kind, rng, i) for i, p in enumerate(names)}
+    start = {p: F.start_value(kind, doms[p], rng, i if kind == 'sphere' else 0) for i, p in enumerate(names)}
+    adaptive = fam in F.ADAPTIVE
+    carries = adaptive or fam in EIGEN               # the state dictionary carries settings
+    s0, s1 = rng.randrange(1 << 30), rng.randrange(1 << 30)
+    pats = ['AR', 'A', 'R', 'AAR', 'RRA', 'ARR']
+    pat = rng.choice(pats)
+    pat2 = rng.choice([q for q in pats if q != pat])
+    k1, k2 = rng.randint(3, 9), rng.randint(3, 8)
+    steps = []
+
+    def fresh(seed=s0, pattern=pat, doms_=None, **kw):
+        return _hchain(fam, names, doms_ or doms, seed, pattern=pattern, start=start, **kw)
+
+    def adapted(seed=s0, pattern=pat, k=k1, **kw):
+        ch, p = fresh(seed, pattern, **kw)
+        for _ in range(k):
+            ch.step()
+        return ch, p
+
+    def said(text):
+        steps.append(text)
+
+    R = T = None
+    said('%s over %s, domains %r, constructor arguments from seed %d' % (cls.__name__, names, doms, s0))
+    if hist in ('reset', 'reset-reset', 'reset-adapt-reset', 'reset-step'):
+        ch, R = adapted()
+        said('%d forced chain steps, pattern %s -> %r' % (k1, pat, _settings(R)))
+        ch.reset_proposals()
+        said('Chain.reset_proposals()')
+        if hist == 'reset-reset':
+            ch.reset_proposals()
+            said('Chain.reset_proposals() again')
+        if hist == 'reset-adapt-reset':
+            for _ in range(k2):
+                ch.step()
+            said('%d more forced steps -> %r' % (k2, _settings(R)))
+            ch.reset_proposals()
+            said('Chain.reset_proposals() again')
+        if hist == 'reset-step':
+            ch.step()
+            said('one more forced step')
+        else:
+            T = fresh()[1]
+            said('twin: the same constructor call, never adapted')
+    elif hist == 'set-state-fresh':
+        if carries:
+            dch, donor = adapted() if adaptive else adapted(seed=s1)
+            said('donor: %s instance, %d forced steps (%s) -> %r' % (
+                'the same constructor call' if adaptive else 'another covariance (seed %d)' % s1, k1, pat, _settings(donor)))
+            R = fresh()[1]
+            R.set_state(donor.state)
+            said('fresh instance .set_state(donor.state)')
+            T = donor
+            said('twin: the donor')
+        else:
+            dch, donor = adapted(seed=s1)
+            R = fresh()[1]
+            R.set_state(donor.state)
+            said('fresh instance .set_state(state of an instance built with other scales (seed %d) after %d steps); '
+                 'the state of this family carries no settings' % (s1, k1))
+            T = fresh()[1]
+            said('twin: the same constructor call, no set_state')
+    elif hist == 'set-state-adapted':
+        dch, donor = adapted()
+        ch, R = adapted(pattern=pat2, k=k2)
+        said('receiver: %d forced steps (%s) -> %r' % (k2, pat2, _settings(R)))
+        said('donor: same constructor call, %d forced steps (%s) -> %r' % (k1, pat, _settings(donor)))
+        R.set_state(donor.state)
+        said('receiver.set_state(donor.state)')
+        T = donor
+        said('twin: the donor')
+    elif hist in ('setter-std', 'setter-cov'):
+        full_ok = fam in ('normal', 'ss_adaptive_normal')
+        if adaptive:
+            ch, R = adapted()
+            said('%d forced chain steps, pattern %s -> %r' % (k1, pat, _settings(R)))
+        else:
+            R = fresh()[1]
+        if not R.isdiagonal:
+            # Andrieu-Thoms with a full covariance: assign a full matrix through `cov`
+            a = numpy.array([[rng.uniform(-0.5, 0.5) for _ in range(n)] for _ in range(n)])
+            full = a @ a.T + numpy.diag([rng.uniform(0.1, 0.5) for _ in range(n)])
+            full = (full + full.T) / 2
+            T = copy.deepcopy(R)
+            st = T.state
+            st['cov'] = full.copy()
+            T.set_state(st)
+            R.cov = full.copy()
+            said('.cov = %r (full matrix)' % full.tolist())
+            said('twin: a copy made before the assignment, .set_state(its own state with cov replaced)')
+        elif hist == 'setter-cov' and full_ok and n > 1 and rng.random() < 0.4:
+            a = numpy.array([[rng.uniform(-0.5, 0.5) for _ in range(n)] for _ in range(n)])
+            full = a @ a.T + numpy.diag([rng.uniform(0.1, 0.5) for _ in range(n)])
+            full = (full + full.T) / 2
+            R.cov = full.copy()
+            said('.cov = %r (full matrix)' % full.tolist())
+            T = cls(names, cov=full.copy())
+            said('twin: %s(%r, cov=that matrix)' % (cls.__name__, names))
+        else:
+            if kind in ('int', 'intbox'):
+                var = numpy.array([round(rng.uniform(0.5, 6.0), 2) for _ in names])
+            else:
+                var = numpy.array([round(rng.uniform(0.02, 0.8), 3) for _ in names])
+            if adaptive and fam not in TAKES_COV or (adaptive and rng.random() < 0.5):
+                T = copy.deepcopy(R)
+                st = T.state
+                st['std'] = var ** 0.5
+                T.set_state(st)
+                twin = 'twin: a copy made before the assignment, .set_state(its own state with std replaced)'
+            else:
+                T = _with_cov(fam, names, doms, var, getattr(R, 'successive', None))
+                twin = 'twin: %s(..., cov=%r) built by the constructor' % (cls.__name__, var.tolist())
+            if hist == 'setter-std':
+                R.std = var ** 0.5
+                said('.std = %r' % (var ** 0.5).tolist())
+            elif rng.random() < 0.5:
+                R.cov = var.copy()
+                said('.cov = %r (variances)' % var.tolist())
+            else:
+                R.cov = numpy.diag(var)
+                said('.cov = diag(%r)' % var.tolist())
+            said(twin)
+    elif hist == 'setter-boundaries':
+        if adaptive:
+            ch, R = adapted()
+            said('%d forced chain steps, pattern %s -> %r' % (k1, pat, _settings(R)))
+        else:
+            R = fresh()[1]
+        nd = _new_doms(kind, doms, names, rng)
+        R.boundaries = {p: nd[p] for p in names}
+        said('.boundaries = %r' % nd)
+        succ = getattr(R, 'successive', None)
+        T = fresh(doms_=nd, successive=dict(succ) if succ is not None else None)[1]
+        if adaptive:
+            T.set_state(R.state)
+            said('twin: the same constructor call with the new boundaries, .set_state(state of the object)')
+        else:
+            said('twin: the same constructor call with the new boundaries')
+        doms = nd
+    elif hist == 'setter-kappa':
+        if adaptive:
+            ch, R = adapted()
+            said('%d forced chain steps, pattern %s -> kappa %r' % (k1, pat, float(R.kappa)))
+            kap = float(rng.uniform(2, 40))
+            T = copy.deepcopy(R)
+            st = T.state
+            st['kappa'], st['log_kappa'] = kap, math.log(kap)
+            T.set_state(st)
+            said('twin: a copy made before the assignment, .set_state(its own state with kappa replaced)')
+        else:
+            R = fresh()[1]
+            T = fresh(seed=s1)[1]
+            kap = float(T.kappa)
+            said('twin: constructor call with kappa=%r' % kap)
+        R.kappa = kap
+        said('.kappa = %r' % kap)
+    elif hist == 'setter-successive':
+        if adaptive:
+            ch, R = adapted()
+            said('%d forced chain steps, pattern %s -> %r' % (k1, pat, _settings(R)))
+        else:
+            R = fresh()[1]
+        flipped = {p: not bool(v) for p, v in R.successive.items()}
+        if n > 1 and rng.random() < 0.5:
+            flipped[names[0]] = bool(R.successive[names[0]])
+        T = fresh(successive=dict(flipped))[1]
+        if adaptive:
+            T.set_state(R.state)
+        R.successive = dict(flipped)
+        said('.successive = %r' % flipped)
+        said('twin: the same constructor call with these flags' + (', .set_state(state of the object)' if adaptive else ''))
+    elif hist in ('setter-eigen', 'setter-cov-eigen'):
+        if adaptive:
+            ch, R = adapted()
+            said('%d forced chain steps, pattern %s -> %r' % (k1, pat, _settings(R)))
+        else:
+            R = fresh()[1]
+        other = fresh(seed=s1)[1]
+        newcov = numpy.array(other.cov, dtype=float)
+        if hist == 'setter-eigen':
+            vals, vecs = numpy.linalg.eigh(newcov)
+            R.eigvals, R.eigvects = vals, vecs
+            said('.eigvals, .eigvects = numpy.linalg.eigh(%r)' % newcov.tolist())
+            T = other
+            said('twin: constructor call with that covariance')
+        else:
+            R.cov = newcov.copy()
+            said('.cov = %r (law of the jumps against the reported density only: whether `cov` takes effect '
+                 'before the next adaptation step is not a matter of this property)' % newcov.tolist())
+    elif hist in ('pickle', 'deepcopy'):
+        if adaptive:
+            ch, base = adapted()
+            said('%d forced chain steps, pattern %s -> %r' % (k1, pat, _settings(base)))
+            if rng.random() < 0.5:
+                ch.reset_proposals()
+                said('Chain.reset_proposals()')
+        else:
+            base = fresh()[1]
+            if fam in PERPARAM:
+                var = numpy.array([round(rng.uniform(0.5, 6.0) if kind in ('int', 'intbox') else rng.uniform(0.02, 0.8), 3)
+                                   for _ in names])
+                base.std = var ** 0.5
+                said('.std = %r' % (var ** 0.5).tolist())
+            elif fam in SPHERE:
+                base.kappa = float(rng.uniform(2, 40))
+                said('.kappa = %r' % float(base.kappa))
+        if hist == 'pickle':
+            R = pickle.loads(pickle.dumps(base))
+            said('pickle.loads(pickle.dumps(.))')
+        else:
+            R = copy.deepcopy(base)
+            said('copy.deepcopy(.)')
+        T = base
+        said('twin: the original')
+    else:
+        raise KeyError(hist)
+    return dict(R=R, T=T, steps=steps, names=names, kind=kind, doms=_live_doms(R, kind, names, doms))
+
+
+def _num_same(a, b, amp=1.0):
+    if isinstance(a, str) or isinstance(b, str):
+        return a == b
+    if a == b or (math.isnan(a) and math.isnan(b)):
+        return True
+    if math.isinf(a) or math.isinf(b) or math.isnan(a) or math.isnan(b):
+        return False
+    return abs(a - b) <= 1e-12 * amp * max(1.0, abs(a), abs(b))
+
+
+def _calls_same(ca, cb):
+    if len(ca) != len(cb):
+        return False
+    for a, b in zip(ca, cb):
+        if a[0] != b[0] or len(a) != len(b):
+            return False
+        for u, v in zip(a[1:], b[1:]):
+            if u is None or v is None:
+                if u is not v:
+                    return False
+                continue
+            u, v = numpy.asarray(u, dtype=float), numpy.asarray(v, dtype=float)
+            if u.shape != v.shape or not numpy.allclose(u, v, rtol=1e-12, atol=0, equal_nan=True):
+                return False
+    return True
+
+
+def _safe(f, *a):
+    try:
+        return float(f(*a))
+    except ValueError as e:
+        return 'raised ValueError: ' + str(e)[:120]
+
+
+def _scripted_jumps(obj, fam, x, zs, us, ind, njumps):
+    """`njumps` jumps of a copy of `obj` from x under the scripted draws; for the eigenvector
+    families also the density reported for each jump and its reverse right after it."""
+    o = copy.deepcopy(obj)
+    gen = Gen(ScriptPlan(zs, us, ind))
+    gen.limit = len(zs) - 5
+    o._verif_gen = gen
+    outs, dens = [], []
+    for _ in range(njumps):
+        try:
+            out = o.jump(x)
+        except (Runaway, Exhausted):
+            outs.append('rejected every scripted draw')
+            break
+        outs.append({k: float(v) for k, v in out.items()})
+        if fam in EIGEN:
+            dens.append((_safe(o.logpdf, out, x), _safe(o.logpdf, x, out), _safe(o.pdf, out, x)))
+    return outs, dens, list(gen.calls)
+
+
+def twin_check(fam, H, x, pairs, rng, findings, stats):
+    """Same current settings by construction, different histories: same reported density, same jumps."""
+    R, T = H['R'], H['T']
+    n = len(H['names'])
+    zs = [rng.gauss(0.0, 1.1) for _ in range(400)]
+    us = [rng.random() for _ in range(16)]
+    ind = rng.randrange(n)
+    oR, dR, cR = _scripted_jumps(R, fam, x, zs, us, ind, 3)
+    oT, dT, cT = _scripted_jumps(T, fam, x, zs, us, ind, 3)
+    stats['twin_pairs'] = stats.get('twin_pairs', 0) + 1
+    stats['twin_jumps'] = stats.get('twin_jumps', 0) + len(oR) + len(oT)
+    jumps_same = len(oR) == len(oT) and _calls_same(cR, cT)
+    for a, b in zip(oR, oT):
+        if isinstance(a, str) or isinstance(b, str):
+            jumps_same = jumps_same and a == b
+        else:
+            jumps_same = jumps_same and all(_num_same(a[k], b[k]) for k in a)
+    bad = None
+    if fam in EIGEN:
+        for j, (a, b) in enumerate(zip(dR, dT)):
+            stats['twin_queries'] = stats.get('twin_queries', 0) + 6
+            amp = max(1.0, abs(a[0])) if not isinstance(a[0], str) else 1.0
+            if not (_num_same(a[0], b[0]) and _num_same(a[1], b[1]) and _num_same(a[2], b[2], amp)):
+                bad = ('of scripted jump %d (%r -> %r) and its reverse' % (j, x, oR[j]), a, b)
+                break
+    else:
+        for xi, given in pairs:
+            a = (_safe(pristine(R, fam).logpdf, xi, given), _safe(pristine(R, fam).pdf, xi, given))
+            b = (_safe(pristine(T, fam).logpdf, xi, given), _safe(pristine(T, fam).pdf, xi, given))
+            stats['twin_queries'] = stats.get('twin_queries', 0) + 4
+            amp = max(1.0, abs(a[0])) if not isinstance(a[0], str) else 1.0
+            if not (_num_same(a[0], b[0]) and _num_same(a[1], b[1], amp)):
+                bad = ('(%r | %r)' % (xi, given), a, b)
+                break
+    if bad is None and jumps_same:
+        return
+    if bad is not None and jumps_same:
+        text = ('%s: two objects with the same current settings make the same jumps from the same draws but report '
+                'different densities: logpdf, pdf %s = %r after the history, %r on the twin' % (fam, bad[0], bad[1], bad[2]))
+    elif bad is not None:
+        text = ('%s: two objects with the same current settings by construction neither jump alike (same scripted '
+                'draws: %r / %r) nor report the same density: logpdf, pdf %s = %r after the history, %r on the twin' % (
+                    fam, oR[:1], oT[:1], bad[0], bad[1], bad[2]))
+    else:
+        text = ('%s: two objects with the same current settings by construction report the same density but jump '
+                'differently from the same scripted draws: %r (generator calls %r) after the history, %r (%r) on the '
+                'twin' % (fam, oR[:1], cR[:2], oT[:1], cT[:2]))
+    findings.append(('%s:twin' % fam, text,
+                     dict(describe(fam, R, x), kind='settings-history-twin', twin_settings=_settings(T),
+                          jumps_same=bool(jumps_same), density=None if bad is None else [str(bad[1]), str(bad[2])])))
+
+
+def jump_interval_walk(fam, rng, nparams, N, nodes, findings, stats, steps):
+    """jump_interval > 1: on the iterations in between, jump() returns the point it was given and
+    logpdf() reports 0; both decide that from the step counter.  Walk a real chain through the
+    whole schedule; at every iteration the two must agree (no draw made <=> log density exactly 0
+    in both directions).  Returns a history dict for the law / twin comparison of the state the
+    walk starts from (interval k, counter 0: a real jump)."""
+    cls, kind, lo, hi = F.FAMILIES[fam]
+    n = max(lo, min(hi, nparams))
+    names = ['x%d' % i for i in range(n)]
+    doms = {p: F.domain_for(kind, rng, i) for i, p in enumerate(names)}
+    start = {p: F.start_value(kind, doms[p], rng, i if kind == 'sphere' else 0) for i, p in enumerate(names)}
+    s0 = rng.randrange(1 << 30)
+    k = rng.choice([2, 3])
+    window = rng.randint(4, 6)
+    pat = rng.choice(['AR', 'A', 'RRA', 'AAR'])
+    ch, R = _hchain(fam, names, doms, s0, pattern=pat, window=window, jump_interval=k, start=start)
+    steps.append('%s over %s, domains %r, constructor arguments from seed %d, jump_interval=%d for %d proposal steps' % (
+        cls.__name__, names, doms, s0, k, window))
+    first = copy.deepcopy(R)
+    live = _live_doms(R, kind, names, doms)
+    zs = [rng.gauss(0.0, 0.8) for _ in range(400)]
+    us = [rng.random() for _ in range(8)]
+    changed = None
+    total = k * window + 3
+    switch_at = rng.randint(1, k * window - 1)
+    for it in range(total):
+        x = point(kind, live, names, rng)
+        y = point(kind, live, names, rng)
+        o = copy.deepcopy(R)
+        gen = Gen(ScriptPlan(zs, us, 0))
+        gen.limit = 390
+        o._verif_gen = gen
+        try:
+            out = o.jump(x)
+        except (Runaway, Exhausted):
+            continue
+        drew = len(gen.calls) > 0
+        # (the eigenvector families define their density for the most recent jump only)
+        to = out if (drew and fam in EIGEN) else y
+        vals = [_safe(o.logpdf, to, x), _safe(o.logpdf, x, to)]
+        zero = all((not isinstance(v, str)) and v == 0.0 for v in vals)
+        stats['jump_interval_states'] = stats.get('jump_interval_states', 0) + 1
+        stats['jump_interval_states_' + ('real' if drew else 'skipped')] = \
+            stats.get('jump_interval_states_' + ('real' if drew else 'skipped'), 0) + 1
+        stats['twin_queries'] = stats.get('twin_queries', 0) + 2
+        moved = any(out[k_] != x[k_] for k_ in names)
+        if drew == zero or (not drew and moved):
+            findings.append(('%s:jump-interval' % fam,
+                             '%s with jump_interval=%d, %d chain iterations in (%s): jump(%r) %s and returned %r, while '
+                             'logpdf(%r | x), logpdf(x | .) = %r' % (
+                                 fam, int(R.jump_interval), it, changed or 'schedule as constructed', x,
+                                 'made %d generator call(s)' % len(gen.calls) if drew else 'made no draw',
+                                 {k_: float(v_) for k_, v_ in out.items()}, to, vals),
+                             dict(describe(fam, R, x), kind='jump-interval', iteration=it, drew=drew, reported=str(vals))))
+            break
+        if it == switch_at and changed is None:
+            # the public way to change the schedule of a live object
+            if rng.random() < 0.5:
+                R.set_jump_interval(1)
+                changed = 'set_jump_interval(1) after %d iterations' % it
+            else:
+                k2 = 5 - k
+                R.set_jump_interval(k2, window)
+                changed = 'set_jump_interval(%d, %d) after %d iterations' % (k2, window, it)
+            steps.append(changed)
+            continue
+        ch.step()
+    steps.append('walked %d chain iterations (%s), comparing at each whether jump() draws with whether logpdf() is 0' % (
+        total, pat))
+    T = _hchain(fam, names, doms, s0, pattern=pat, window=window, jump_interval=1, start=start)[1]
+    steps.append('law / twin comparison on the object as constructed (counter 0); twin: the same constructor call '
+                 'with jump_interval=1')
+    return dict(R=first, T=T, steps=steps, names=names, kind=kind, doms=live)
+
+
+def settings_history_unit(unit, findings, stats):
+    fam, hist = unit['family'], unit['hist']
+    rng = random.Random(unit['seed'])
+    mine = []
+    stats['_strict'] = True
+    steps = []
+    if hist == 'jump-interval':
+        H = jump_interval_walk(fam, rng, unit['nparams'], unit['N'], unit.get('nodes', (16, 16)), mine, stats, steps)
+    else:
+        H = build_history(fam, hist, rng, unit['nparams'])
+    R, names, kind, doms = H['R'], H['names'], H['kind'], H['doms']
+    tag = {'which': 0, 'inplace': True, 'nodes': unit.get('nodes', (16, 16))}
+    x = point(kind, doms, names, rng)
+    y = point(kind, doms, names, rng)
+    if fam in PERPARAM:
+        cx = perparam_law(fam, R, x, unit['N'], mine, stats, tag)
+        cy = perparam_law(fam, R, y, unit['N'], mine, stats, dict(tag, which=1)) if y != x else None
+        normaliser_check(fam, R, [(x, cx), (y, cy)], mine, stats)
+        pool = query_pool(fam, R, rng)
+        symmetric_reported(fam, R, [(x, y)] + [(q[1], q[0]) for q in pool[:1]], mine, stats)
+        if fam in DISCRETE and pool:
+            history_independence(fam, R, pool[:2], mine, stats, 2)
+        pairs = [(y, x), (x, y)] + pool[:2]
+    elif fam in EIGEN:
+        cells, per = unit.get('enodes', (16, 8))
+        cs = eigen_law(fam, R, x, unit['N'], mine, stats, every=unit.get('every', 15), cells=cells, per=per)
+        if unit.get('two_points'):
+            cs2 = eigen_law(fam, R, y, unit['N'], mine, stats, every=unit.get('every', 15), cells=cells, per=per, which=1)
+            eigen_normalisers(fam, R, x, y, cs, cs2, mine, stats)
+        pairs = []
+    else:
+        cx = sphere_law(fam, R, x, unit['m'], mine, stats)
+        cy = sphere_law(fam, R, y, unit['m'], mine, stats, which=1)
+        normaliser_check(fam, R, [(x, cx), (y, cy)], mine, stats)
+        symmetric_reported(fam, R, [(x, y)], mine, stats)
+        pairs = [(y, x), (x, y), (x, x)]
+    if H['T'] is not None:
+        twin_check(fam, H, x, pairs, rng, mine, stats)
+    stats.pop('_strict', None)
+    stats.pop('_pending', None)
+    stats.pop('_disp', None)
+    stats['settings_history_units'] = stats.get('settings_history_units', 0) + 1
+    stats['hist:%s:%s' % (hist, fam)] = stats.get('hist:%s:%s' % (hist, fam), 0) + 1
+    group = HIST_GROUP[hist]
+    for key, text, payload in mine:
+        payload = dict(payload)
+        payload['history'] = H['steps']
+        payload['history_kind'] = hist
+        payload['settings_after_history'] = _settings(R)
+        if key not in KNOWN_SITE_KEYS:
+            payload['check'] = key
+            key = '%s:stale-density-after-%s' % (fam, group)
+            text = '[history %s: %s] %s' % (hist, ' ; '.join(H['steps'][1:])[:700], text)
+        findings.append((key, text, payload))
+
+
+# --------------------------------------------------------------------------
 # one unit of work (picklable: runs in a worker process)
 # --------------------------------------------------------------------------
 
@@ -1517,6 +2178,8 @@ def run_unit(unit):
                 beigen_probes(fam, unit['N'], findings, stats)
             elif unit['kind'] == 'adaptive-history':
                 history_with_adaptation(fam, unit['seed'], unit['pattern'], unit['nparams'], findings, stats)
+            elif unit['kind'] == 'settings-history':
+                settings_history_unit(unit, findings, stats)
             else:
                 p0, names, doms, kind = build(fam, rng, unit['nparams'], unit.get('adapt_steps', 0),
                                               unit.get('pattern', 'AR'), unit.get('successive'),
@@ -1631,6 +2294,31 @@ def plan_units(seed, tier, full=False):
                               N=bigN if j < 2 or not quick else smallN, nparams=1 + j % 3))
         if not quick:
             units.append(dict(kind='birth', family=name, seed=rng.randrange(1 << 30), N=1000000, nparams=1))
+    units.extend(plan_history_units(seed, quick))
+    return units
+
+
+def plan_history_units(seed, quick):
+    """Settings histories (own random stream: the units above keep their seeds): every history kind
+    that exists for a family, once in the quick tier, six times with the full grid otherwise."""
+    rng = random.Random(seed * 1000003 + 29)
+    units = []
+    for fi, fam in enumerate(sorted(F.FAMILIES)):
+        cls, kind, lo, hi = F.FAMILIES[fam]
+        for hi_, hist in enumerate(history_kinds(fam)):
+            for rep in range(1 if quick else 6):
+                u = dict(kind='settings-history', family=fam, hist=hist, seed=rng.randrange(1 << 30),
+                         N=1500 if quick else 20000, nparams=lo + ((fi + hi_ + rep + seed) % (hi - lo + 1)),
+                         nodes=(16, 16) if quick else (32, 16))
+                if fam in EIGEN:
+                    u['every'] = 15 if quick else 40
+                    u['enodes'] = (16, 8) if quick else (32, 16)
+                    if 'bounded' in fam:
+                        u['N'] = 1500 if quick else 20000
+                    u['two_points'] = not quick
+                if fam in SPHERE:
+                    u['m'] = 10 if quick else 14
+                units.append(u)
     return units
 
 
